@@ -336,6 +336,8 @@ class Spec:
 
     def feed_input(self, step, line):
         self.step = step
+        self.more_forwarded = set()
+        self.more_expected = set()
         self.in_kind = None
         self.in_client = None
         self.reply_ctx = None
@@ -448,6 +450,8 @@ class Spec:
             # challenge response: forwarded verbatim, not parsed for modes
             self.in_kind = "P-more"
             self.more_text = text
+            # (a service that a reload has dropped meanwhile no longer exists for this purpose)
+            self.more_expected = {s_ for s_ in c.more if self.conf.services.get(s_)}
             return
         shape = password_shape(text)
         if shape is None:
@@ -569,8 +573,10 @@ class Spec:
         if text.startswith("MORE "):
             if self.in_kind != "P-more":
                 self.v("C06", "more_forward_unexpected", "MORE forwarded outside a challenge response")
-            elif text[5:] != self.more_text:
+            elif text[5:] != self.more_text and not (len(text) > 900 and self.more_text.startswith(text[5:])):
+                # (a response longer than the daemon's 1024-byte output line arrives cut short: not judged)
                 self.v("C06", "more_forward_text", "challenge response altered: %r vs %r" % (text[5:], self.more_text))
+            self.more_forwarded.add(svc)
             return
         if not self.prereq_done(c, proto):
             self.v("C06", "query_early", "%s (%s) queried before its data is known: %r" % (svc, proto, text))
@@ -800,6 +806,10 @@ class Spec:
             for (cmd, cid, tail) in cli_lines:
                 if cid != c.id:
                     self.v("C05", "reply_other_client", "reply for %s produced a message for client %d" % (c.tag, cid))
+        # ---- C06: a challenge response goes to every service that asked for one, in this step
+        if self.in_kind == "P-more" and self.in_client is not None and self.in_client.live:
+            for svc in sorted(getattr(self, "more_expected", set()) - getattr(self, "more_forwarded", set())):
+                self.v("C06", "more_not_forwarded", "the challenge response of %s was not passed on to %s" % (self.in_client.tag, svc))
         # ---- C06: queries that should have been sent in this step
         c = self.in_client
         if c is not None and self.in_kind not in (None, "reply", "dead", "server", "D", "T") and self.conf.xquery and (c.live or c.end[1] == self.step and c.end[0] == "verdict"):
